@@ -134,6 +134,33 @@ def check(prog, run):
                    "default values are rendered with %s instead of the GraphQL printer: enum defaults come out as quoted strings, "
                    "strings are not escaped and input objects are printed as JSON, so defaultValue does not parse back to the declared "
                    "default" % (bad + (["%-interpolation"] if interp else []) or "an unrecognised pipeline"))
+    # ---- T9 which branch a value takes (independent of T3: whatever renders strings and objects, numbers, booleans and null
+    # must come out as their own literals)
+    r9 = run.rule("T9", "_format_default_value folded on sample defaults (True, False, None, 0, 1, 7, -3, 0.0, 1.0, 2.5): every test on the "
+                        "value and the returned expression are pure (isinstance / is / == / str / json.dumps) and are folded like "
+                        "constants; a boolean yields true/false, null yields null and a number yields its own literal - `1` is not `true`", 10)
+    if ok and not bad and not interp:
+        for _ in range(10):
+            r9.instance("rendered by the GraphQL printer (T3): no class dispatch to fold")
+    else:
+        import json as _json
+        from .. import fold
+        allowed = {"isinstance": isinstance, "bool": bool, "str": str, "int": int, "float": float, "list": list, "dict": dict, "tuple": tuple,
+                   "type": type, "repr": repr, "json": _json, "True": True, "False": False, "None": None}
+        param = fd.params[0]
+        for sample in (True, False, None, 0, 1, 7, -3, 0.0, 1.0, 2.5):
+            inputs = {"%s.has_default_value" % param: True, "%s.default_value" % param: sample}
+            try:
+                outs = fold.fold_function(fd.node, inputs, allowed)
+            except fold.FoldError as e:
+                raise AnalysisError("C15.T9: _format_default_value cannot be folded on %r: %s" % (sample, e))
+            want = "null" if sample is None else ("true" if sample is True else "false" if sample is False else _json.dumps(sample))
+            got = sorted({repr(v) if k == "return" else "<%s>" % k for k, v in outs})
+            r9.instance("default %r -> %s" % (sample, got))
+            if got != [repr(want)]:
+                run.report(r9, "%s:_format_default_value:literal-of(%r)" % (INTRO, sample), fd.where(),
+                           "the declared default %r is reported as %s, expected %r: the reported text does not parse back to the declared "
+                           "default" % (sample, " / ".join(got), want))
     used = any(isinstance(n, ast.Call) and isinstance(n.func, ast.Name) and n.func.id == "_format_default_value" for e in m.assigns.get("__InputValue__", []) for n in ast.walk(e))
     r.instance("__InputValue.defaultValue uses _format_default_value: %s" % used)
     if not used:
